@@ -1,9 +1,9 @@
 #!/bin/sh
 # run every check's quick (or $1) tier; summary at the end
 T="${1:-quick}"
-cd /verif
+cd "$(dirname "$0")/.."
 for p in C01 C02 C03 C04 C05 C06 C07 C08 C09 C10 C11 C12 C13 C14 C15 C16 C17 C18 C19; do
-  /venv/bin/python check.py $p --tier $T > /tmp/runall.$p.log 2>&1
-  echo "$p rc=$? $(tail -1 /tmp/runall.$p.log | cut -c1-200)"
-  grep -E "^(VIOLATION|KNOWN-FINDING|HARNESS)" /tmp/runall.$p.log | cut -c1-220
+  /venv/bin/python check.py $p --tier $T > /tmp/runall.$T.$p.log 2>&1
+  echo "$p rc=$? $(tail -1 /tmp/runall.$T.$p.log | cut -c1-200)"
+  grep -E "^(VIOLATION|KNOWN-FINDING|HARNESS)" /tmp/runall.$T.$p.log | cut -c1-220
 done
